@@ -116,6 +116,8 @@ def parse_output(out: str, rc: int, wall: float) -> TlcResult:
             res.violated = m.group(1)
         elif "Error: Temporal properties were violated" in ln:
             res.violated = res.violated or "temporal"
+        elif ln.startswith("Error: Temporal property") and "violated" in ln:
+            res.violated = res.violated or ln.split()[3]
         elif "Error: Action property" in ln and "violated" in ln:
             res.violated = res.violated or ln.split()[3]
         elif ln.startswith("Error: Postcondition"):
